@@ -143,3 +143,23 @@ func init() {
 		Outside: []string{"semantic value constraints of the specifications (only layout is checked)", "as C01"},
 	})
 }
+
+func init() {
+	register(&PropSpec{
+		ID: "C12",
+		Jobs: func(tier string) []Job {
+			js := pduJobs(12, "VH_PDU_", tier)
+			js = append(js, extraC12Jobs(tier)...)
+			return js
+		},
+		Functions: append(pduFunctions, "codec.CMPPCodec/SMPPCodec.Decode (zero-copy frame) + decoders"),
+		Stubs:     pduStubs,
+		Bounds: map[string]string{
+			"step":        "one encode / decode step from an arbitrary pool state: bytebufferpool.Get returns a buffer with arbitrary stale content (8 octets of capacity, then growth), Put havocs the released backing array (any later holder may write anything)",
+			"input reuse": "after IDecode the whole input buffer is overwritten with fresh symbolic octets (the most hostile caller) and every decoded field is compared with the original value",
+			"shapes":      "as C01",
+		},
+		Outside:     []string{"String() results (formatting is opaque)", "true concurrent reuse (see C13)"},
+		Assumptions: []string{"one step covers all histories: a later call can reach an earlier result only through the input buffer (havocked) or a pooled buffer (havocked at Put); results are shown independent of both"},
+	})
+}
